@@ -456,6 +456,13 @@ def finish(cx, explanation, assumptions, not_decided, known_file=None):
             print(f"note: known finding {e['id']} did not fire on this tree (repaired?): {k}")
     code = 0
     seen_keys = set()
+    keep = {f'{cx.prop}-' + hashlib.sha1(v['key'].encode()).hexdigest()[:12] + '.json' for v in fresh}
+    for fn_ in os.listdir(os.path.join(VERIF, 'evidence', 'replay')):
+        if fn_.startswith(cx.prop + '-') and fn_ not in keep:
+            try:
+                os.unlink(os.path.join(VERIF, 'evidence', 'replay', fn_))
+            except OSError:
+                pass
     for v in fresh:
         if v['key'] in seen_keys:
             continue
